@@ -523,6 +523,10 @@ type c8Rig struct {
 	dom  *c8DomainTab
 	fwd  *c8ForwardTab
 	agt  *c8AgentTab
+	// age mark: a point in time with a quiet gap on both sides; a cleanup "since the mark"
+	// makes everything last written before it stale and (normally) nothing written after it
+	mark    time.Time
+	hasMark bool
 }
 
 func c8NewRig(w *c8World, viaManager bool) *c8Rig {
@@ -635,6 +639,7 @@ type c8Gen struct {
 	w        *c8World
 	rng      *verifkit.Rand
 	mappedOK bool
+	marked   bool               // an age mark has been emitted
 	keys     map[string][]c8Ent // per kind: key prototypes (Kind, Key, Raw, Net/Agent)
 }
 
@@ -792,6 +797,11 @@ type c8Op struct {
 	Target c8Ent
 	Peer   c8ID
 	MaxAge time.Duration
+	// SinceMark: maxAge is computed at call time as the time elapsed since the rig's age
+	// mark, so the cleanup is PARTIAL: routes last written before the mark go, routes
+	// written or refreshed after it stay. Which ones actually stayed is read back from the
+	// table; no verdict depends on the clock.
+	SinceMark bool
 }
 
 func (o *c8Op) show(w *c8World) string {
@@ -810,7 +820,12 @@ func (o *c8Op) show(w *c8World) string {
 		return fmt.Sprintf("withdraw %s %s origin=%s", o.Kind, o.Target.Raw, w.name(o.Target.Origin))
 	case "disconnect":
 		return fmt.Sprintf("disconnect %s peer=%s", o.Kind, w.name(o.Peer))
+	case "mark":
+		return "age-mark (pause, remember now, pause)"
 	default:
+		if o.SinceMark {
+			return fmt.Sprintf("cleanup %s maxAge=since-age-mark", o.Kind)
+		}
 		return fmt.Sprintf("cleanup %s maxAge=%s", o.Kind, o.MaxAge)
 	}
 }
@@ -820,6 +835,9 @@ func (o *c8Op) show(w *c8World) string {
 func (g *c8Gen) genOp(kind string, cur []c8Ent) c8Op {
 	rng := g.rng
 	switch k := rng.Intn(100); {
+	case k < 3:
+		g.marked = true
+		return c8Op{Kind: kind, Op: "mark"}
 	case k < 64:
 		return c8Op{Kind: kind, Op: "add", Batch: g.addBatch(kind), Enc: rng.Chance(1, 10)}
 	case k < 80:
@@ -831,6 +849,9 @@ func (g *c8Gen) genOp(kind string, cur []c8Ent) c8Op {
 		}
 		return c8Op{Kind: kind, Op: "disconnect", Peer: p}
 	default:
+		if g.marked && rng.Chance(1, 2) {
+			return c8Op{Kind: kind, Op: "cleanup", SinceMark: true}
+		}
 		age := c8AgeNone
 		switch rng.Intn(5) {
 		case 0, 1:
@@ -856,9 +877,22 @@ func (g *c8Rig) apply(o *c8Op) {
 	case "disconnect":
 		t.Disconnect(o.Peer)
 	case "cleanup":
+		if o.SinceMark {
+			o.MaxAge = time.Since(g.mark)
+		}
 		t.Cleanup(o.MaxAge)
+	case "mark":
+		time.Sleep(c8MarkGap)
+		g.mark, g.hasMark = time.Now(), true
+		time.Sleep(c8MarkGap)
 	}
 }
+
+// c8MarkGap is the quiet time on each side of an age mark. Routes written before the mark
+// are older than "time since the mark" by at least this much (always stale); routes written
+// after it are younger by at least this much (fresh unless the cleanup call is preempted
+// for longer than the gap between computing maxAge and reading the clock inside).
+const c8MarkGap = 3 * time.Millisecond
 
 // c8Sorted puts a snapshot into a deterministic order (the tables iterate Go maps), so
 // that a case is a pure function of (seed, phase, case index).
@@ -877,6 +911,21 @@ func c8Sorted(es []c8Ent) []c8Ent {
 		out[i] = es[j]
 	}
 	return out
+}
+
+// c8PartialCleanup reports whether a cleanup removed some routes of other origins and
+// left at least one route of another origin in place (so it was neither "all stale" nor
+// "nothing stale").
+func c8PartialCleanup(w *c8World, before, after []c8Ent) bool {
+	if len(after) >= len(before) {
+		return false
+	}
+	for i := range after {
+		if after[i].Origin != w.local {
+			return true
+		}
+	}
+	return false
 }
 
 func c8HasID(p []c8ID, id c8ID) bool {
